@@ -261,7 +261,7 @@ func (_this *cteListener) ExitValueInt(ctx *parser.ValueIntContext) {
 	}()
 
 	str := ctx.GetText()
-	str = strings.ReplaceAll(str, "_", "")
+	str = stripLeadingDecimalZeros(strings.ReplaceAll(str, "_", ""))
 	isNegative := false
 	if str[0] == '-' {
 		isNegative = true
@@ -283,6 +283,26 @@ func (_this *cteListener) ExitValueInt(ctx *parser.ValueIntContext) {
 	}
 
 	panic(fmt.Errorf("BUG: Expected an integer but got \"%v\"", str))
+}
+
+// A number with no base prefix is decimal, however many zeros it starts with.
+// Strip them so that base detection (strconv and math/big with base 0) does
+// not read a leading zero as an octal prefix.
+func stripLeadingDecimalZeros(str string) string {
+	sign := ""
+	digits := str
+	if len(digits) > 0 && digits[0] == '-' {
+		sign = "-"
+		digits = digits[1:]
+	}
+	if len(digits) < 2 || digits[0] != '0' || digits[1] < '0' || digits[1] > '9' {
+		return str
+	}
+	digits = strings.TrimLeft(digits, "0")
+	if len(digits) == 0 || digits[0] < '0' || digits[0] > '9' {
+		digits = "0" + digits
+	}
+	return sign + digits
 }
 
 func countFloatSignificantDigits(str string) (count uint) {
@@ -1209,6 +1229,10 @@ func appendUID(str string, dst []byte) []byte {
 }
 
 func parseUintElement(str string, base int, bitSize int, result []byte) []byte {
+	str = strings.ReplaceAll(str, "_", "")
+	if base == 0 {
+		str = stripLeadingDecimalZeros(str)
+	}
 	element, err := strconv.ParseUint(str, base, bitSize)
 	if err != nil {
 		panic(fmt.Errorf("error parsing uint element: %v", err))
@@ -1228,6 +1252,10 @@ func parseUintElement(str string, base int, bitSize int, result []byte) []byte {
 }
 
 func parseIntElement(str string, base int, bitSize int, result []byte) []byte {
+	str = strings.ReplaceAll(str, "_", "")
+	if base == 0 {
+		str = stripLeadingDecimalZeros(str)
+	}
 	element, err := strconv.ParseInt(str, base, bitSize)
 	if err != nil {
 		panic(fmt.Errorf("error parsing int element: %v", err))
